@@ -10,3 +10,40 @@ for _f in (B + "BaseCooccurrenceVectorizer._set_coo_sizes", MU + "MultiSetCooccu
         requires=["self.n_threads >= 1"],
         ensures=["forall(0, len(self._coo_sizes), lambda k: self._coo_sizes[k] >= 2)", "len(self._coo_sizes) == len(old(self._coo_sizes))"],
     )
+
+
+# ---------------------------------------------------------------- document chunking for n_threads (C04): the chunks handed to the worker threads
+# partition the corpus - consecutive, starting at document 0, ending at the last document - for every n_threads >= 1 and every corpus
+_CHUNKS_POST = [
+    "len(result) >= 1",
+    "result[0][0] == 0 and result[len(result) - 1][1] == len(data)",
+    "forall(0, len(result) - 1, lambda k: result[k][1] == result[k + 1][0])",
+    "forall(0, len(result), lambda k: result[k][0] <= result[k][1])",
+]
+_CHUNKS_INV = [
+    "len(cumulative_sizes) == len(data)",
+    "0 <= last_chunk_end and last_chunk_end <= chunk_index",
+    "implies(len(chunks) == 0, last_chunk_end == 0)",
+    "implies(len(chunks) > 0, chunks[0][0] == 0 and chunks[len(chunks) - 1][1] == last_chunk_end)",
+    "forall(0, len(chunks) - 1, lambda k: chunks[k][1] == chunks[k + 1][0])",
+    "forall(0, len(chunks), lambda k: chunks[k][0] <= chunks[k][1])",
+]
+CONTRACTS[B + "BaseCooccurrenceVectorizer._generate_chunk_boundaries"] = dict(
+    params=dict(self="opaque", data="list[int[]]", n_threads="int"),
+    local_types=dict(chunks="list[(int,int)]"),
+    # (an empty corpus is rejected earlier: cumulative_sizes[-1] needs at least one document)
+    requires=["n_threads >= 1", "len(data) >= 1"],
+    returns="list[(int,int)]",
+    ensures=_CHUNKS_POST,
+    loops={"for#1": dict(invariant=_CHUNKS_INV)},
+)
+# the multiset variant differs only in how a document's size is computed (a nested comprehension outside the subset): everything
+# after that first statement is verified as a segment, for arbitrary sizes
+CONTRACTS[MU + "MultiSetCooccurrenceVectorizer._generate_chunk_boundaries#partition"] = dict(
+    segment=dict(start="@assign:cumulative_sizes", start_ordinal=1, end="chunks.append((last_chunk_end, len(data)))", end_inclusive=True),
+    locals=dict(token_list_sizes="int[]", data="list[int[]]", n_threads="int"),
+    local_types=dict(chunks="list[(int,int)]"),
+    requires=["n_threads >= 1", "len(data) >= 1", "len(token_list_sizes) == len(data)"],
+    ensures=[e.replace("result", "chunks") for e in _CHUNKS_POST],
+    loops={"for#1": dict(invariant=_CHUNKS_INV)},
+)
